@@ -470,10 +470,13 @@ def strip_numbers(tree):
 
 
 def sort_lines(items):
-    """lines of every text file sorted; files as a sorted multiset"""
+    """lines of every text file sorted (the items of a one-line <ul> count as lines); files as a sorted
+    multiset"""
     out = []
     for path, data in items:
         ls = _lines(data)
+        if ls is not None:
+            ls = [x for l in ls for x in l.replace("</li>", "</li>\n").replace("<li>", "\n<li>").split("\n")]
         out.append((path, data if ls is None else "\n".join(sorted(ls)).encode()))
     return sorted(out)
 
